@@ -124,23 +124,23 @@ CHECKS = {
 # rules added after the first plan (DESIGN.md section 11.2 lists every rule with its text as implemented)
 ADDED = {
  'C11': ' Fifth round: set.add counts as in-place mutation of a transient field; prologue and readers share one critical section (R2, lifted from C10). Sixth round: dict fields that are pure memo tables (value computed from the key\'s inputs only) are not transient state.',
- 'C10': ' Fifth round: R3 (no shared module state) also covers the authentication helpers that run on session threads. Seventh round: the session does not modify anything taken out of a structure it was handed at construction (engine, authentication settings: one object for all sessions) (R3).',
- 'C19': ' Third round: batch item fields that failure responses omit are dereferenced only after the SUCCESS test or under a None test (R7). Fourth round: explicitly tagged request values carry the tag the request readers expect (R8). Fifth round: converters hand back everything a response carried (R9, lifted from C05.R11). Sixth round: _build_protocol_version is folded for every KMIPVersion and for every ordered pair of versions on one client object (R4 follows-current-version). Seventh round: R7 follows a batch item field held in a local (F26 repaired in /repo); a raise that depends on an item field other than the status sits behind the success edge of the status test (R9); primitive decoders detect short reads (R10, shared with C12.R7); a response obtained through a decoding helper counts as a decode site (R2).',
+ 'C10': ' Fifth round: R3 (no shared module state) also covers the authentication helpers that run on session threads. Seventh round: the session does not modify anything taken out of a structure it was handed at construction (engine, authentication settings: one object for all sessions) (R3). Eighth round: the engine lock is used by _synchronize only (R2); one KmipEngine is constructed, outside the accept loop, and handed to every session (R5).',
+ 'C19': ' Third round: batch item fields that failure responses omit are dereferenced only after the SUCCESS test or under a None test (R7). Fourth round: explicitly tagged request values carry the tag the request readers expect (R8). Fifth round: converters hand back everything a response carried (R9, lifted from C05.R11). Sixth round: _build_protocol_version is folded for every KMIPVersion and for every ordered pair of versions on one client object (R4 follows-current-version). Seventh round: R7 follows a batch item field held in a local (F26 repaired in /repo); a raise that depends on an item field other than the status sits behind the success edge of the status test (R9); primitive decoders detect short reads (R10, shared with C12.R7); a response obtained through a decoding helper counts as a decode site (R2). Eighth round: every response structure reads its optional fields in the order the server writes them, per version (R11).',
  'C17': ' Third round: the common-name list is the complete list of commonName attributes of the whole subject (R4 all-common-names). Fifth round: SLUGS connector - each 404 test looks at the response of its own lookup, groups come from that response, no except arm completes normally (R4). Sixth round: every [auth:*] section of the configuration reaches the session (R6). Seventh round: R3 is path-sensitive: the certificate-only identity is returned on no path on which an authentication connector was built, whatever bookkeeping (flag, list of plugins tried, early raise) the code uses.',
  'C08': ' Third round: executed results are withheld only for the size limit of that very request (R7, lifted from C12.R5). Fifth round: column converters never raise (R8, lifted from C05.R3). Sixth round: R1 is decided on every path through one iteration of the batch loop (path-sensitive constant propagation): one result per item, echo, fresh result fields, stop exactly on failure under STOP. Seventh round: the path simulation remembers the outcome of tests on opaque locals and non-emptiness of appended lists; log-only reads of the placeholder are not fallback reads (R5).',
- 'C01': ' Added: BigInteger padding leaves room for the sign bit for every bit length (R3 sign-room); no constructor default shares a mutable container that decoders fill in place (R6). Third round: no encodable class overrides truthiness, because presence of fields is decided by `if self._field:` (R7). Fourth round: primitive decoders store the value they read, no normalisation (R8); the padding count kept after decoding is in 0..7 (R3; the unsound exemption for a skip-only guard was removed and the TextString reader repaired in /repo). Fifth round: reader and writer nest presence conditions alike (R2 nested); early returns under a version test are understood by the schema extractor. Sixth round: BigInteger.write is folded over a length abstraction (value known by bit length and sign, strings by length) for bit lengths 0..200, so the sign-room rule holds for any spelling of the writer; the attribute value registries are read by folding them for every member. Seventh round: a constructor default that is any object built by a call and filled in place by read() counts as shared (R6); encoders assign nothing but self.length and the conversion functions they call change only objects they built (R9; F30 repaired in /repo).',
- 'C02': ' Added: TextString/ByteString writers emit exactly len(value) value bytes, one struct-packed byte per counted element, then padding_length zero bytes (R6). Third round: BigInteger two\'s-complement sign room (R7, shared with C01.R3). Fourth round: padding count after decoding in 0..7 (R8, lifted from C01.R3). Fifth round: KMIP error texts cannot be empty - literals, or reviewed foreign-exception sites (R9). Sixth round: write_value of TextString/ByteString folded over value lengths 0..40 (exact byte counts, zero padding); the per-item envelope (status/reason/message) is decided on every path of one batch-loop iteration by path simulation. Seventh round: precompiled struct codecs and named pad words are canonicalised to the pack calls they abbreviate; the pad word is compared by width (R1); reviewed foreign exception texts are per callee (R9).',
- 'C03': ' Added: the policy parser allocates each per-type/per-section table inside the iteration that fills and stores it (R10). Fourth round: a try around an access-controlled load answers denied and absent in the same arm (R11). Fifth round: the policy table the decisions read is kept in step with the files (R12, lifted from C18.R5-R10). Sixth round: the decision functions are folded over a finite model of policies x group lists x ownership (648 combinations) and compared with the decision table (R5); a per-call memo table in the lister is accepted only if its key determines the decision (R4); identity store and decisions share one critical section (R13, lifted from C10). Seventh round: session.delete is accepted only for the object the choke point returned for Operation.DESTROY; len(session.new/dirty/deleted) is not a store access (R1).',
+ 'C01': ' Added: BigInteger padding leaves room for the sign bit for every bit length (R3 sign-room); no constructor default shares a mutable container that decoders fill in place (R6). Third round: no encodable class overrides truthiness, because presence of fields is decided by `if self._field:` (R7). Fourth round: primitive decoders store the value they read, no normalisation (R8); the padding count kept after decoding is in 0..7 (R3; the unsound exemption for a skip-only guard was removed and the TextString reader repaired in /repo). Fifth round: reader and writer nest presence conditions alike (R2 nested); early returns under a version test are understood by the schema extractor. Sixth round: BigInteger.write is folded over a length abstraction (value known by bit length and sign, strings by length) for bit lengths 0..200, so the sign-room rule holds for any spelling of the writer; the attribute value registries are read by folding them for every member. Seventh round: a constructor default that is any object built by a call and filled in place by read() counts as shared (R6); encoders assign nothing but self.length and the conversion functions they call change only objects they built (R9; F30 repaired in /repo). Eighth round: a field is written only under its own presence test, not under that of a sibling field (R2).',
+ 'C02': ' Added: TextString/ByteString writers emit exactly len(value) value bytes, one struct-packed byte per counted element, then padding_length zero bytes (R6). Third round: BigInteger two\'s-complement sign room (R7, shared with C01.R3). Fourth round: padding count after decoding in 0..7 (R8, lifted from C01.R3). Fifth round: KMIP error texts cannot be empty - literals, or reviewed foreign-exception sites (R9). Sixth round: write_value of TextString/ByteString folded over value lengths 0..40 (exact byte counts, zero padding); the per-item envelope (status/reason/message) is decided on every path of one batch-loop iteration by path simulation. Seventh round: precompiled struct codecs and named pad words are canonicalised to the pack calls they abbreviate; the pad word is compared by width (R1); reviewed foreign exception texts are per callee (R9). Eighth round: no store into .value of a sized primitive after construction (R10); every error response of the session carries 1.0 before and the request\'s version after decoding (R4, shared with C16.R7).',
+ 'C03': ' Added: the policy parser allocates each per-type/per-section table inside the iteration that fills and stores it (R10). Fourth round: a try around an access-controlled load answers denied and absent in the same arm (R11). Fifth round: the policy table the decisions read is kept in step with the files (R12, lifted from C18.R5-R10). Sixth round: the decision functions are folded over a finite model of policies x group lists x ownership (648 combinations) and compared with the decision table (R5); a per-call memo table in the lister is accepted only if its key determines the decision (R4); identity store and decisions share one critical section (R13, lifted from C10). Seventh round: session.delete is accepted only for the object the choke point returned for Operation.DESTROY; len(session.new/dirty/deleted) is not a store access (R1). Eighth round: the decision function is folded over histories as well (544): a second decision after the store changed, after another requester or another object, equals that of a fresh engine (R5).',
  'C04': ' Added: a stored object whose value is used as derivation data is gated like the keying object (R3 derive_key.derivation_data). Fourth round: lifecycle changes are committed before the handler returns (R5, lifted from C09.R2). Fifth round: the usage mask the guards test is exactly the stored one (R6, lifted from C05.R3). Sixth round: the revocation reason is tracked as a path fact by the interpreter, so COMPROMISED-only-under-compromise holds wherever the reason test sits.',
- 'C05': ' Added: attribute rows fetched from the store are never linked into a second object (R6); only Activate/Revoke/Destroy and the attribute operations modify a loaded instance (R7). Third round: no truthiness filter on stored values in the conversion chain (R8). Fourth round: numeric columns use exact integer types (R9). Fifth round: column converters are total and decode exactly the stored mask bits (R3); flag sets are OR-ed, never summed (R10); converters use everything they extract on every path (R11). Seventh round: no ProxyKmipClient method leaves a possibly supplied parameter unread on a return guarded by the client configuration alone (R12, path-sensitive over 69 method/parameter pairs); a wire Big Integer is not stored in a fixed-width integer column (R13; F29 known finding).',
- 'C06': ' Added: an object built from derivation output cannot hold more than the requested length (R6); every return of the symmetric cipher helpers passes finalize(), AAD is authenticated whenever given (R7). Fourth round: key material of a loaded object is never overwritten by read-only handlers (R8, lifted from C05.R7). Fifth round: reader and writer of the cryptographic payloads agree (R9, lifted from C01.R1/R2). Seventh round: derived tables (dict(self._t) + update) and callees looked up in an instance table are resolved (R1, R5); an unconditional truncation of the derivation output is accepted (R6).',
+ 'C05': ' Added: attribute rows fetched from the store are never linked into a second object (R6); only Activate/Revoke/Destroy and the attribute operations modify a loaded instance (R7). Third round: no truthiness filter on stored values in the conversion chain (R8). Fourth round: numeric columns use exact integer types (R9). Fifth round: column converters are total and decode exactly the stored mask bits (R3); flag sets are OR-ed, never summed (R10); converters use everything they extract on every path (R11). Seventh round: no ProxyKmipClient method leaves a possibly supplied parameter unread on a return guarded by the client configuration alone (R12, path-sensitive over 69 method/parameter pairs); a wire Big Integer is not stored in a fixed-width integer column (R13; F29 known finding). Eighth round: KeyWrappingData rebuilt from the store passes every stored key (R14); the attribute report reads no engine field written by a request (R15).',
+ 'C06': ' Added: an object built from derivation output cannot hold more than the requested length (R6); every return of the symmetric cipher helpers passes finalize(), AAD is authenticated whenever given (R7). Fourth round: key material of a loaded object is never overwritten by read-only handlers (R8, lifted from C05.R7). Fifth round: reader and writer of the cryptographic payloads agree (R9, lifted from C01.R1/R2). Seventh round: derived tables (dict(self._t) + update) and callees looked up in an instance table are resolved (R1, R5); an unconditional truncation of the derivation output is accepted (R6). Eighth round: once a supported padding method is looked up a padder / unpadder runs update() and finalize() on every normal path and no handler swallows a finalize() failure (R9).',
  'C07': ' Added: every query by unique identifier compares the column with the identifier exactly as received (R6). Fourth round: Destroy issues its delete only after every refusal (R7, lifted from C08.R3). Fifth round: requests run one at a time under the engine lock (R8, lifted from C10.R1/R2). Seventh round: stores through setattr(obj, <computed name>, v) are decided from the field names the abstract interpreter derives for the computed name (R2).',
- 'C09': ' Added: nothing in the package takes the database connection out of transactional mode (R4). Third round: nobody but SQLite deletes/renames/truncates files (R5). Fourth round: the session factory is bound to the create_engine result and the engine opens no connections of its own (R3).',
+ 'C09': ' Added: nothing in the package takes the database connection out of transactional mode (R4). Third round: nobody but SQLite deletes/renames/truncates files (R5). Fourth round: the session factory is bound to the create_engine result and the engine opens no connections of its own (R3). Eighth round: the data session is driven through add / add_all / query / delete / commit only - no savepoints or other transaction control (R6).',
  'C12': ' Added: every primitive stream read is checked for shortness (R7). Third round: the arms handling a failed decode never read the half-decoded request (R8). Fourth round: decoded values echoed into responses re-encode to well-formed TTLV (R9, lifted from C01.R3). Fifth round: every failed item can be encoded (R10, shared with C02.R9). Sixth round: a counted repetition (batch count) is read in full (R11); framing rules accept chunk lists joined once, bytearray buffers, unpack_from and int.from_bytes. Seventh round: BytearrayStream is folded as an abstract data type over byte windows (which bytes of which input, never their content) for 320 read/write histories, so R6 holds for any representation of the stream.',
- 'C13': ' Added: identifiers kept in the placeholder or given to response payloads are strings on every path (R5); the policy queries test and look up the very name they are given (R2 tests-the-given-name). Fourth round: identifier reuse (which would collide with orphan subclass rows and end in General Failure) is excluded by AUTOINCREMENT (R6, lifted from C07.R1). Fifth round: converters never raise (R7, lifted); the schema adds no uniqueness/check constraints (R8). Sixth round: helpers of kmip.core that raise on an empty collection are called from the engine only with a collection tested for emptiness (R9). Seventh round: a positional index is bounded on both sides before it selects (R10, shared with C15.R9; F24 repaired); optional wire structures are not dereferenced in the object factory (R11; F25 repaired); results of table.get() are tested before use (R12; F28 repaired); library calls that reject request-controlled values sit in a try that answers with a KMIP error (R13; 6 known findings F27); Big Integer columns (R14, shared with C05.R13).',
- 'C14': ' Added: the lister includes an object only on the allowed edge of the decision taken for that object in the same iteration (R6). Third round: date bounds are tested for presence with None tests only (R7). Fourth round: the candidate loop runs to the end, no early break/return (R8). Fifth round: an attribute a stored class carries is declared applicable to that type (R9). Seventh round: the tail of Locate is folded for 36 offset/maximum combinations: the identifiers returned are those of sorted[offset:offset+maximum] whatever helper computes the bounds (R4).',
+ 'C13': ' Added: identifiers kept in the placeholder or given to response payloads are strings on every path (R5); the policy queries test and look up the very name they are given (R2 tests-the-given-name). Fourth round: identifier reuse (which would collide with orphan subclass rows and end in General Failure) is excluded by AUTOINCREMENT (R6, lifted from C07.R1). Fifth round: converters never raise (R7, lifted); the schema adds no uniqueness/check constraints (R8). Sixth round: helpers of kmip.core that raise on an empty collection are called from the engine only with a collection tested for emptiness (R9). Seventh round: a positional index is bounded on both sides before it selects (R10, shared with C15.R9; F24 repaired); optional wire structures are not dereferenced in the object factory (R11; F25 repaired); results of table.get() are tested before use (R12; F28 repaired); library calls that reject request-controlled values sit in a try that answers with a KMIP error (R13; 6 known findings F27); Big Integer columns (R14, shared with C05.R13). Eighth round: attribute reads on a decoded field whose class is selected by a tag of the owner (Credential.credential_value) exist in every alternative or sit behind a test of the tag (R15).',
+ 'C14': ' Added: the lister includes an object only on the allowed edge of the decision taken for that object in the same iteration (R6). Third round: date bounds are tested for presence with None tests only (R7). Fourth round: the candidate loop runs to the end, no early break/return (R8). Fifth round: an attribute a stored class carries is declared applicable to that type (R9). Seventh round: the tail of Locate is folded for 36 offset/maximum combinations: the identifiers returned are those of sorted[offset:offset+maximum] whatever helper computes the bounds (R4). Eighth round: all returns of a getter arm are merged - a None among them makes the attribute unfilterable for some objects (R3).',
  'C15': ' Added: a row taken from the store is never attached to another object (R6). Third round: no failure exit of the three attribute operations is reached with a modified object (R4). Fourth round: rows of id-ordered relationships are modified in place, never replaced by index (R7). Fifth round: no-value-given is decided by None where the value can be a plain string (R8). Seventh round: an index tested against a length is also tested against 0 before it selects an instance (R9; F24 repaired in /repo).',
- 'C16': ' Added: the six ProtocolVersion comparison operators, evaluated over the nine sign combinations of (major, minor), are the lexicographic order (R9). Fifth round: version-dependent readers end with the trailing-data check on every path (R10; LocateRequestPayload repaired in /repo). Sixth round: the version gate decorator and the Query operation list are decided by folding them for every supported version x threshold (R3, R4); DiscoverVersions provenance accepts copies and filtering comprehensions/loops (R5). Seventh round: the per-version attribute sets are obtained by folding is_attribute with a membership probe, module-level tables included.',
+ 'C16': ' Added: the six ProtocolVersion comparison operators, evaluated over the nine sign combinations of (major, minor), are the lexicographic order (R9). Fifth round: version-dependent readers end with the trailing-data check on every path (R10; LocateRequestPayload repaired in /repo). Sixth round: the version gate decorator and the Query operation list are decided by folding them for every supported version x threshold (R3, R4); DiscoverVersions provenance accepts copies and filtering comprehensions/loops (R5). Seventh round: the per-version attribute sets are obtained by folding is_attribute with a membership probe, module-level tables included. Eighth round: the version mapping is folded over 184 (major, minor) pairs - only supported versions map, injectively (R2); response fields the encoder writes without a version test are passed only under a version test (R11).',
  'C18': ' Added: no snapshot of the policy structures is carried across iterations of a loop that updates them (R6, a loop-carried staleness rule; straight-line staleness and general history semantics remain undecided); enum/table lookups keyed by document data convert KeyError/TypeError to ValueError (R2). Third round: no monitor structure is modified while being iterated (R7). Fourth round: restore_or_delete_policy is preceded by the disassociation of the file (R8). Fifth round: a reloaded file drops the shadowed definitions it no longer provides (R9; repaired in /repo); the engine consults the store on every decision (R10). Sixth round: the policy file reader is folded over 83 model documents: valid ones accepted, invalid ones rejected with ValueError and nothing else (R11; F23 repaired in /repo); a file that disappears loses its timestamp entry (R12). Seventh round: restore_or_delete_policy and disassociate_policy_and_file are folded over every shadow stack of up to 4 entries owned by 3 files (366 cases): exactly the entries of the file go, the last entry is restored, other policies are untouched (R5).',
  'C20': ' Added: codec-layer exception texts never format a field that can render key material (R4); no handler stores a secret-bearing value into an engine field such as the ID placeholder (R5). Third round: locals into which a message is encoded are secret sources (their str/format is the hex of the buffer). Fifth round: exceptions raised by reviewed input-quoting third-party calls (ConfigParser.get) are secret-bearing. Seventh round: values the generic client configuration getter reads are secrets (it also reads the password option) (R1); column converters raise nothing - a bind-time exception is reported by SQLAlchemy with the statement parameters and logged by the engine (R6).',
 }
@@ -154,7 +154,7 @@ for _p, _t in (('C01', '; finite-domain folding over a length abstraction'), ('C
     TECH6[_p] += _t
 for _p, _t in (('C12', '; abstract interpretation of BytearrayStream over byte windows'), ('C14', '; finite-domain folding of the page selection'), ('C17', '; path-sensitive simulation of authenticate()'),
                ('C18', '; folding of the shadow-stack helpers over all small stacks'), ('C05', '; path-sensitive unread-parameter analysis of the client'), ('C13', '; try-protection and None-test dominance checks over the crypto engine'),
-               ('C15', '; two-sided index bound dominance'), ('C16', '; membership-probe folding of is_attribute')):
+               ('C15', '; two-sided index bound dominance'), ('C16', '; membership-probe folding of is_attribute; folding of the version mapping'), ('C06', '; must-pass-through on the CFG of the padding helper'), ('C13', '; class-membership check of reads on tag-selected fields'), ('C10', '; construction-site and lock-use census')):
     TECH6[_p] += _t
 
 
